@@ -12,8 +12,12 @@ C11 protocol handler.  One line = one history:
 `content`: `(contentok 0|1)`).  The four answers of a probe are what the REAL containers said.  The driver answers what the model
 says for the same history and probes, and evaluates the spec predicates on the REAL observations:
 
-  (out <id> (run ok|(panic <idx> exit|mux)) (fresh ok|panic) (contentok 0|1) (class F10b 0|1) (class F11 0|1) (mclass F11 0|1) (spec C11add 0|1)
+  (out <id> (run ok|(panic <idx> exit|mux)) (fresh ok|panic) (contentok 0|1) (class F10b 0|1) (class F11 0|1) (spec C11add 0|1)
        (probes (pr <histDispatch> <freshDispatch> <histServe> <freshServe> (spec C11 0|1) (tag t))…))
+
+`(class F10b …)` is the class of the open finding.  `(class F11 …)` is a COVERAGE class: the history
+visits the class of the finding F11 repaired by 093fa53 (after some operation of the model's run the
+services present want one ServeMux pattern twice); it excuses nothing.
 -/
 import Restful.Driver.Routing
 import Restful.Model.Registry
@@ -88,19 +92,27 @@ def plainPatterns : List Op → List Str
     The context is read off the history itself, not off the model's run: `present` are the services
     the container holds before that operation (the content the harness keeps), the plain patterns
     are all those the user registered before it. -/
-def addTotalOnReal (ops : List Op) (present : List Svc) (realPanic : Option Nat) : Bool × Bool :=
+def addTotalOnReal (ops : List Op) (present : List Svc) (realPanic : Option Nat) : Bool :=
   match realPanic with
-  | none => (true, false)
+  | none => true
   | some idx =>
     match ops[idx]? with
     | some (.add s) =>
-      let roots := present.map (·.root) ++ [s.root]
-      (Spec.c11AddTotalHolds roots (plainPatterns (ops.take idx)) true, Spec.F11 roots)
+      Spec.c11AddTotalHolds (present.map (·.root) ++ [s.root]) (plainPatterns (ops.take idx)) true
     | some (.remove root) =>
-      let roots := (present.filter (fun each => each.root != root)).map (·.root)
-      (Spec.c11AddTotalHolds roots [] true, Spec.F11 roots)
-    | some (.handle _ _) => (true, false)      -- `Handle` panics for a pattern in use: documented
-    | _ => (false, false)
+      -- `Remove` re-registers on a new ServeMux: no plain pattern is there to clash with
+      Spec.c11AddTotalHolds ((present.filter (fun each => each.root != root)).map (·.root)) [] true
+    | some (.handle _ _) => true      -- `Handle` panics for a pattern in use: documented
+    | _ => false
+
+/-- coverage: after some operation of the model's run the services present lie in the class of the
+    repaired finding F11 (two of them want the same ServeMux pattern) -/
+def visitsF11 (st : State) : List Op → Bool
+  | [] => false
+  | op :: ops =>
+    match step st op with
+    | .ok st' => Spec.F11 (st'.services.map (·.root)) || visitsF11 st' ops
+    | .error _ => false
 
 def decContent (k : RouterKind) (e : SExp) : Option Content :=
   match e with
@@ -143,18 +155,15 @@ def handleRegistry (e : SExp) : Option String :=
     let freshS := match freshR with
       | .ok _ => "ok"
       | .error _ => "panic"
-    let (addOk, f11) := addTotalOnReal ops realContent.services realPanic
-    -- class of the MODEL's panic (the real code may have been repaired there)
-    let mf11 : Bool := match hist with
-      | .error (i, st, .mux _) => (addTotalOnReal ops st.services (some i)).2
-      | _ => false
+    let addOk := addTotalOnReal ops realContent.services realPanic
+    let f11 := visitsF11 (init k) ops
     let prs := probes.map fun p =>
       let hd := answerOf implEnv histR .dispatch p.req
       let fd := answerOf implEnv freshR .dispatch p.req
       let hs := answerOf implEnv histR .serveHTTP p.req
       let fs := answerOf implEnv freshR .serveHTTP p.req
       s!"(pr {encAnswer hd} {encAnswer fd} {encAnswer hs} {encAnswer fs} (spec C11 {bit (Spec.c11Holds p.obs)}) (tag {answerTag hs}/{answerTag hd}))"
-    return s!"(out {id} (run {runS}) (fresh {freshS}) (contentok {bit contentOk}) (class F10b {bit (Spec.F10b ops)}) (class F11 {bit f11}) (mclass F11 {bit mf11}) (spec C11add {bit addOk}) (probes {" ".intercalate prs}))"
+    return s!"(out {id} (run {runS}) (fresh {freshS}) (contentok {bit contentOk}) (class F10b {bit (Spec.F10b ops)}) (class F11 {bit f11}) (spec C11add {bit addOk}) (probes {" ".intercalate prs}))"
   | _ => none
 
 end Restful.Driver.RegistryP
